@@ -16,7 +16,7 @@ use std::sync::atomic::AtomicUsize;
 use std::sync::atomic::Ordering::Relaxed;
 use std::thread::yield_now;
 
-use crate::countedindex::{past, rm_tag};
+use crate::countedindex::{is_tagged, past, rm_tag};
 extern crate parking_lot;
 
 pub const DEFAULT_YIELD_SPINS: usize = 50;
@@ -30,8 +30,11 @@ pub fn load_tagless(val: &AtomicUsize) -> usize {
 
 #[inline(always)]
 pub fn check(seq: usize, at: &AtomicUsize, wc: &AtomicUsize) -> bool {
-    let cur_count = load_tagless(at);
-    wc.load(Relaxed) == 0 || seq == cur_count || past(seq, cur_count).1
+    let raw = at.load(Relaxed);
+    let cur_count = rm_tag(raw);
+    // A slot that was never written still carries its (tagged) initial flag: that is
+    // not a publication, so it must not be compared with the sequence number
+    wc.load(Relaxed) == 0 || (!is_tagged(raw) && (seq == cur_count || past(seq, cur_count).1))
 
     // if wc.load(Relaxed) == 0 || seq == cur_count || past(seq, cur_count).1 {
     //     true
